@@ -327,7 +327,7 @@ func TestC08(t *testing.T) {
 	}
 	env := &c08env{rep: rep, genv: genv}
 	var dmsgs []message.Message
-	for _, mi := range genv.layouts {
+	for _, mi := range genv.sorted() {
 		dmsgs = append(dmsgs, mi.Msg)
 	}
 	type routed struct {
@@ -338,7 +338,7 @@ func TestC08(t *testing.T) {
 	}
 	var forRouter []routed
 	nVals := vh.Pick(6, 12)
-	for _, mi := range genv.layouts {
+	for _, mi := range genv.sorted() {
 		for _, version := range []int{1, 2} {
 			if version == 1 && mi.Msg.GetID() > 255 {
 				continue
